@@ -295,6 +295,14 @@ class C18(Check):
                 if ctx.kf.hits.get("KF-C18-03", 0) > before:
                     return True
             return False
+        if entry["id"] == "KF-C18-06":
+            before = ctx.kf.hits.get("KF-C18-06", 0)
+            saved = json.load(open(os.path.join(os.path.dirname(os.path.abspath(__file__)), "..", "replays", "C18", "kf-c18-06-private-read-empty.json")))["program"]
+            for _ in range(30):
+                self.run_program(ctx, saved)
+                if ctx.kf.hits.get("KF-C18-06", 0) > before:
+                    return True
+            return False
         if entry["id"] != "KF-C18-01":
             return False
         import random
@@ -535,6 +543,9 @@ class C18(Check):
                                     where, [K.rvname(v[0]), str(v[1])[:40]]))
                             ctx.label("private_reads_judged")
                         elif v[0] == 0 and v[1] != m["val"]:
+                            if v[1] == "" and logout_overlaps(tok, {"t0": prev["t0"], "t1": r["t1"]}) and \
+                                    ctx.known({"op": "private_object_read", "deviation": "ok_with_empty_value", "overlaps": "C_Logout"}):
+                                continue
                             raise bad("%s: the thread's own private object reads a wrong value %s" % (where, str(v[1])[:40]))
                 elif op == "reauth_sign":
                     # judged only when the user was logged in during the whole of the four calls
